@@ -28,6 +28,27 @@ CHECKS = {
          "Exploration level: histories are sampled, not enumerated.",
     design="6 (C04), 5",
     technique="deterministic simulation: seeded interleaving of clients/admin on one calculator, projection onto shadow replicas"),
+ "C03": dict(
+    text="Seeded deterministic simulation of 1..3 session clients and a one-shot client running generated straight-line programs (bindings, re-bindings, self-referential re-bindings, copies, uses inside phrases, failing lines between a binding and its use) over a vetted pool of one- and multi-word names (prefixes of each other, case variants) with values of all seven kinds; programs are delivered in seeded chunks through set_text, interleaved by a seeded scheduler, sessions are dropped and recreated, the clock advances between events. Oracle: executable environment model (value semantics, longest-name precedence, case-insensitive names, failed lines leave the environment untouched) judged line by line. Exploration level.",
+    design="6 (C03), 5", technique="deterministic simulation: seeded chunking/interleaving of session programs against an executable environment model"),
+ "C06": dict(
+    text="Seeded deterministic simulation of session clients holding money values, one-shot conversions over all rated currencies (every literal spelling, all connectives, +,-,*,/ and money/money) and an administrator updating rates by code, alias and symbol (plus unknown names and currencies that had no rate), biased to land between a binding and its use. Oracles: rate-table model (amount * rate(B)/rate(A), data read from the repository's config.json), return value of update_currency, and 'exactly that currency': conversions not involving the updated currency are bit-identical before and after every update. Exploration level; the thorough tier walks all 992 ordered pairs as part of the workload.",
+    design="6 (C06), 5", technique="deterministic simulation: seeded rate-update histories interleaved with evaluations against a rate-table model"),
+ "C09": dict(
+    text="Seeded deterministic simulation of date lines (every spelling, en/tr, +/- days/weeks/months/years, differences, today/tomorrow/yesterday, impossible and year-less dates) under a scripted wall clock: boundary-biased instants over 1970..9998 (last/first seconds of days, months, years, leap days), advances between steps, and clock movement INSIDE one-shot evaluations (tick per read, crossing a day/month/year boundary with the crossing position swept over the read indices, backward steps). Oracles: proleptic-Gregorian calendar model (own implementation, self-tested against chrono) with the simulated date as 'today', and clock atomicity: the result under a moving clock must equal the result with the clock frozen at one of the values it returned. Exploration level.",
+    design="6 (C09), 5", technique="deterministic simulation: scripted clock (boundary freezes, in-operation crossings) with calendar model and clock-atomicity oracle"),
+ "C11": dict(
+    text="Seeded deterministic simulation of time lines (24 h and am/pm literals, zone abbreviations and GMT offsets, conversions, +/- durations, differences) evaluated one-shot and through sessions that hold time values while an administrator changes the default zone, under a scripted clock and six host time zones with literals placed inside the host zone's skipped/repeated DST hour. Oracles: wall-time model (seconds modulo 86400, offsets in minutes) including the printed form, return value of set_timezone, clock atomicity; the model's answer is independent of instant and host zone, so agreement across them is instant/host independence. Exploration level.",
+    design="6 (C11), 5", technique="deterministic simulation: scripted clock, host-zone DST fault placement and default-zone change histories with a wall-time model"),
+ "C14": dict(
+    text="Seeded deterministic simulation of timestamp lines ('N to date', 'N to ZONE', '<date|time|date at time> as unix', inverse pairs held in session variables; N across 1970..9999, negative and beyond 2^31) under a scripted clock across years and default-zone changes between the halves of an inverse pair. Oracles: epoch model (seconds since 1970-01-01T00:00Z from civil date, wall time and offset, own calendar), inverse-ness through variables, digit-exact printing, clock atomicity. The pinned suite's only test of this feature depends on the year it was written in and always fails. Exploration level.",
+    design="6 (C14), 5", technique="deterministic simulation: scripted clock and default-zone change histories with an epoch model"),
+ "C15": dict(
+    text="Seeded deterministic simulation of a two-evaluation history per value: evaluate a value line of every printable kind (number, percent, money, duration, time with zone, date, unit quantity, based integer; en and tr), then evaluate its printed form at the same frozen, boundary-biased instant, host zone and configuration (separator/digit/flag/default-zone history through the public setters); the second print must equal the first. Clock-dependent kinds (date: year elision and default year; time: anchoring, host zone) are what the simulator contributes; clock-free kinds ride along and are counted separately. Exploration level.",
+    design="6 (C15), 5", technique="deterministic simulation: print/read fixed point under simulated clock, host zone and configuration history"),
+ "C18": dict(
+    text="Seeded deterministic simulation of registration histories (add_rule / delete_rule / add_dynamic_type / add_dynamic_type_item; valid, duplicate, unknown language/name/family) interleaved with evaluations; rule callbacks are simulator-owned and accept or decline as a pure function of (salt, rule, fields). Oracles: registration model for return values; callback log (first live rule in registration order is called first with fields bound by name, next one after a decline, result token of the accepting rule, transparency when all decline - against a replica without custom rules); O-survivors: at checkpoints a FRESH calculator receives only the surviving registrations in original order and must evaluate a probe set identically; rejected calls change nothing (probe set bit-identical); family chain model (product of declared factors). Exploration level.",
+    design="6 (C18), 5", technique="deterministic simulation: seeded registration/deletion histories with callback decline injection, survivors replica and registration model"),
 }
 
 NOT_APPLICABLE = {
@@ -43,15 +64,7 @@ NOT_APPLICABLE = {
  "C19": "language parity relates two pure evaluations at the same instant; the clock selects a print format but no clause depends on it",
 }
 
-PENDING = {
- "C03": "claimed in DESIGN.md (session state over histories; environment model) - check not built yet in this revision",
- "C06": "claimed in DESIGN.md (rate-update histories; rate-table model) - check not built yet in this revision",
- "C09": "claimed in DESIGN.md (simulated calendar; clock atomicity) - check not built yet in this revision",
- "C11": "claimed in DESIGN.md (clock anchoring, default-zone changes, host zone) - check not built yet in this revision",
- "C14": "claimed in DESIGN.md (epoch model under a simulated clock) - check not built yet in this revision",
- "C15": "claimed in DESIGN.md (print/read fixed point under simulated clock and host zone) - check not built yet in this revision",
- "C18": "claimed in DESIGN.md (registration histories; survivors replica) - check not built yet in this revision",
-}
+PENDING = {}
 
 def main():
     repo_commits = subprocess.run(["git", "-C", "/repo", "log", "--format=%h %s"], capture_output=True, text=True).stdout.splitlines()
